@@ -29,7 +29,7 @@ STRS = ['', 'a', 'ab']
 ENUM_UNIVERSE = [0, 1, 'a', None]
 
 SHAPES = ['bool', 'int', 'float', 'str', 'enum', 'list_int', 'list_list', 'tuple_fixed', 'tuple_var',
-          'dict_const', 'dict_dyn', 'dict_free', 'object', 'union_is', 'union_if', 'union_li', 'any']
+          'dict_const', 'dict_dyn', 'dict_mixed', 'dict_free', 'object', 'union_is', 'union_if', 'union_li', 'any']
 
 KINDS = {
     'bool': ['none', 'bool', 'int'],
@@ -43,6 +43,7 @@ KINDS = {
     'tuple_var': ['none', 'tuple', 'list'],
     'dict_const': ['none', 'dict', 'int'],
     'dict_dyn': ['none', 'dict', 'int'],
+    'dict_mixed': ['none', 'dict', 'int'],
     'dict_free': ['none', 'dict', 'int'],
     'object': ['none', 'obj', 'int'],
     'union_is': ['none', 'int', 'str', 'float'],
@@ -130,6 +131,10 @@ def build_spec(shape, p, flags, d):
       s = pgt.Dict(fields)
     elif shape == 'dict_dyn':
       s = pgt.Dict([(pgt.StrKey(), pgt.Int(min_value=p[0], max_value=p[1]))])
+    elif shape == 'dict_mixed':
+      # a declared key next to a dynamic key; p[2] = None: the declared field is a string, else an int range
+      fa = pgt.Str() if p[2] is None else pgt.Int(min_value=p[2], max_value=p[3])
+      s = pgt.Dict([('a', fa), (pgt.StrKey(), pgt.Int(min_value=p[0], max_value=p[1]))])
     elif shape == 'dict_free':
       s = pgt.Dict()
     elif shape == 'object':
@@ -204,6 +209,10 @@ def mk_value(kind, v, n):
       return {'b': v[1]}
     if n == 4:
       return {'a': v[0], 'c': v[2]}
+    if n == 5:
+      return {'a': 'ab'}
+    if n == 6:
+      return {'a': 'ab', 'c': v[2]}
     raise Assume()
   if kind == 'obj':
     if n == 0:
@@ -394,7 +403,8 @@ CROSS = [('any', 'int'), ('any', 'list_int'), ('union_is', 'int'), ('union_is', 
          ('dict_dyn', 'dict_const'), ('dict_const', 'dict_dyn'), ('dict_free', 'dict_const'),
          ('dict_const', 'dict_free'), ('list_int', 'list_list'), ('union_li', 'list_int'),
          ('list_int', 'union_li'), ('int', 'any'), ('bool', 'int'), ('int', 'bool'), ('str', 'any'),
-         ('union_li', 'int'), ('union_li', 'union_if'), ('object', 'any'), ('dict_dyn', 'dict_free')]
+         ('union_li', 'int'), ('union_li', 'union_if'), ('object', 'any'), ('dict_dyn', 'dict_free'),
+         ('dict_dyn', 'dict_mixed'), ('dict_mixed', 'dict_dyn'), ('dict_mixed', 'dict_const'), ('dict_const', 'dict_mixed')]
 
 
 # Quick-tier table: (lemma, A, B, kinds, flags, pmaskA, pmaskB, nmax). Each row is cut so that its path
@@ -429,6 +439,11 @@ QUICK = [
     ('L2', 'dict_dyn', 'dict_const', ['dict'], '', R, R, 4), ('L2', 'dict_const', 'dict_dyn', ['dict'], '', R, R, 4),
     ('L2', 'dict_dyn', 'dict_dyn', ['dict'], 'n', R, R, 4), ('L2', 'dict_free', 'dict_const', ['dict'], 'n', '0000', R, 4),
     ('L2', 'dict_const', 'dict_free', ['dict'], 'n', R, '0000', 4),
+    ('L2', 'dict_dyn', 'dict_mixed', ['dict'], '', R, RS, 6), ('L2', 'dict_mixed', 'dict_dyn', ['dict'], '', RS, R, 6),
+    ('L2', 'dict_mixed', 'dict_mixed', ['dict'], '', S, S, 6), ('L2', 'dict_mixed', 'dict_mixed', ['dict'], '', R, R, 6),
+    ('L2', 'dict_const', 'dict_mixed', ['dict'], '', R, S, 6), ('L2', 'dict_mixed', 'dict_const', ['dict'], '', S, R, 6),
+    ('L2', 'dict_free', 'dict_mixed', ['dict'], '', '0000', S, 6),
+    ('L3', 'dict_mixed', 'dict_mixed', ['dict'], '', S, S, 6), ('L3', 'dict_mixed', 'dict_dyn', ['dict'], '', S, R, 6),
     ('L2', 'object', 'object', ['obj', 'none'], 'n', '1000', '1000', 2), ('L3', 'object', 'object', ['obj'], 'n', '1000', '1000', 2),
     # unions / any
     ('L2', 'union_is', 'int', ['int'], 'n', R, R, 0), ('L2', 'union_is', 'str', ['str'], 'n', R, '0000', 9),
@@ -443,7 +458,7 @@ QUICK = [
 L1_QUICK = [('int', ['int', 'none', 'bool'], 'ndf', R), ('float', ['int', 'float'], 'n', R), ('str', ['str', 'int'], 'ndf', '0000'),
             ('enum', ['int', 'str', 'none'], 'd', RS), ('list_int', ['list'], 'n', S), ('list_int', ['list', 'tuple'], 'd', R),
             ('list_list', ['listlist'], '', '0111'), ('tuple_fixed', ['tuple', 'list'], 'n', R), ('tuple_var', ['tuple'], 'n', S),
-            ('dict_const', ['dict'], 'n', RS), ('dict_dyn', ['dict'], 'n', R), ('dict_free', ['dict'], 'ndf', '0000'),
+            ('dict_const', ['dict'], 'n', RS), ('dict_dyn', ['dict'], 'n', R), ('dict_mixed', ['dict'], 'n', RS), ('dict_free', ['dict'], 'ndf', '0000'),
             ('object', ['obj', 'none'], 'n', '1000'), ('union_is', ['int', 'str', 'none'], 'n', R),
             ('union_if', ['int', 'float'], '', RS), ('union_li', ['list', 'int'], '', RS), ('any', ['int', 'list', 'obj'], 'ndf', '0000'),
             ('bool', ['bool', 'int', 'none'], 'ndf', '0000')]
